@@ -38,7 +38,7 @@ class Rec:
         self._chk(context, actions)
         self.n += 1
         a = actions[(self.n * 7) % len(actions)]
-        p = [0.5, 0.25, 1.0][self.n % 3]
+        p = [0.5, 0.25, 1.0, 0.0][self.n % 4]      # 0.0: a learner may report probability zero for what it plays (falsy values must be recorded like any other)
         self.log.append(dict(e="predict", ctx=self.ctx_id(context), acts=[int(x) for x in (actions or [])], ra=int(a), rp=S(p) if self.fmt != "a" else NOVAL, rk=self.n if self.fmt == "apk" else NOVAL))
         if self.fmt == "pmf":        # a PMF that puts all mass on the chosen action, written with the ints 1 and 0
             self.log[-1].update(rp=1000, rk=NOVAL)
@@ -48,7 +48,7 @@ class Rec:
         return a, p, {"k": self.n}
     def _score(self, context, actions, action):
         self._chk(context, actions)
-        s = [0.25, 0.5, 1.0][(self.n + int(action)) % 3]
+        s = [0.25, 0.5, 1.0, 0.0][(self.n + int(action)) % 4]
         self.log.append(dict(e="score", ctx=self.ctx_id(context), acts=[int(x) for x in (actions or [])], a=int(action), rs=S(s)))
         return s
     def learn(self, context, action, reward, probability, **kw):
